@@ -1,7 +1,109 @@
-//! C17 operations (op names start with `c17.`)
-#[allow(unused_imports)]
+//! C17 — radix strings (op names start with `c17.`)
+//!
+//! Strings travel as `x`-hex of their bytes; the crate API takes `&str`, so the bytes must be
+//! valid UTF-8 (anything else is a generator bug → `bad-args`).
+//!
+//! c17.u.parse      <limbs> <radix> <xstr>      Uint::<N>::from_str_radix_vartime      -> hex | err:<Kind>
+//! c17.u.parse_num  <limbs> <radix> <xstr>      <Uint<N> as num_traits::Num>::from_str_radix
+//! c17.u.fmt        <limbs> <radix> <hex>       Uint::<N>::to_string_radix_vartime     -> xstr
+//! c17.b.parse      <radix> <xstr>              BoxedUint::from_str_radix_vartime      -> n:hex | err
+//! c17.b.parse_prec <radix> <bits> <xstr>       BoxedUint::from_str_radix_with_precision_vartime -> n:hex | err
+//! c17.b.fmt        <limbs> <radix> <hex>       BoxedUint::to_string_radix_vartime     -> xstr
+//! c17.b.roundtrip  <radix> <xstr>              parse (no precision) then format       -> xstr | err
+//! c17.b.parse_bits <radix> <xstr>              parse (no precision) then bits_vartime -> decimal | err
 use crate::util::*;
+use crypto_bigint::{BoxedUint, DecodeError, Uint};
 
-pub fn dispatch(_op: &str, _a: &[&str]) -> Option<String> {
-    None
+fn err(e: DecodeError) -> String {
+    match e {
+        DecodeError::Empty => "err:Empty".into(),
+        DecodeError::InvalidDigit => "err:InvalidDigit".into(),
+        DecodeError::InputSize => "err:InputSize".into(),
+        DecodeError::Precision => "err:Precision".into(),
+    }
+}
+
+fn text(tok: &str) -> Option<String> {
+    String::from_utf8(bytes(tok)?).ok()
+}
+
+fn fixed<const N: usize>(op: &str, a: &[&str]) -> Option<String> {
+    Some(match (op, a) {
+        ("c17.u.parse", [r, s]) => {
+            let (r, s) = (arg!(dec32(r)), arg!(text(s)));
+            match Uint::<N>::from_str_radix_vartime(&s, r) {
+                Ok(v) => uhex(&v),
+                Err(e) => err(e),
+            }
+        }
+        ("c17.u.parse_num", [r, s]) => {
+            let (r, s) = (arg!(dec32(r)), arg!(text(s)));
+            match <Uint<N> as num_traits::Num>::from_str_radix(&s, r) {
+                Ok(v) => uhex(&v),
+                Err(e) => err(e),
+            }
+        }
+        ("c17.u.fmt", [r, x]) => {
+            let (r, x) = (arg!(dec32(r)), arg!(uint::<N>(x)));
+            bytes_tok(x.to_string_radix_vartime(r).as_bytes())
+        }
+        _ => return None,
+    })
+}
+
+fn fixed_n(n: usize, op: &str, a: &[&str]) -> Option<String> {
+    match n {
+        1 => fixed::<1>(op, a),
+        2 => fixed::<2>(op, a),
+        3 => fixed::<3>(op, a),
+        4 => fixed::<4>(op, a),
+        8 => fixed::<8>(op, a),
+        16 => fixed::<16>(op, a),
+        33 => fixed::<33>(op, a),
+        40 => fixed::<40>(op, a),
+        _ => Some("unsupported-width".to_string()),
+    }
+}
+
+pub fn dispatch(op: &str, a: &[&str]) -> Option<String> {
+    match (op, a) {
+        ("c17.b.parse", [r, s]) => {
+            let (r, s) = (arg!(dec32(r)), arg!(text(s)));
+            Some(match BoxedUint::from_str_radix_vartime(&s, r) {
+                Ok(v) => bhexlen(&v),
+                Err(e) => err(e),
+            })
+        }
+        ("c17.b.parse_prec", [r, p, s]) => {
+            let (r, p, s) = (arg!(dec32(r)), arg!(dec32(p)), arg!(text(s)));
+            Some(match BoxedUint::from_str_radix_with_precision_vartime(&s, r, p) {
+                Ok(v) => bhexlen(&v),
+                Err(e) => err(e),
+            })
+        }
+        ("c17.b.fmt", [n, r, x]) => {
+            let (n, r) = (arg!(dec(n)), arg!(dec32(r)));
+            let x = arg!(boxed(x, n));
+            Some(bytes_tok(x.to_string_radix_vartime(r).as_bytes()))
+        }
+        ("c17.b.roundtrip", [r, s]) => {
+            let (r, s) = (arg!(dec32(r)), arg!(text(s)));
+            Some(match BoxedUint::from_str_radix_vartime(&s, r) {
+                Ok(v) => bytes_tok(v.to_string_radix_vartime(r).as_bytes()),
+                Err(e) => err(e),
+            })
+        }
+        ("c17.b.parse_bits", [r, s]) => {
+            let (r, s) = (arg!(dec32(r)), arg!(text(s)));
+            Some(match BoxedUint::from_str_radix_vartime(&s, r) {
+                Ok(v) => format!("{}", v.bits_vartime()),
+                Err(e) => err(e),
+            })
+        }
+        _ if op.starts_with("c17.u.") && !a.is_empty() => {
+            let n = arg!(dec(a[0]));
+            fixed_n(n, op, &a[1..])
+        }
+        _ => None,
+    }
 }
